@@ -12,7 +12,10 @@
    the JSON component in place that touch UnEscape outside the property's domain:
    D15 (a backslash as the last unit returns 0 instead of reading content[length]) and
    D61 (template flag Closed_T: the parser's calls return 0 when the closing quote is
-   missing).  Neither branch is reachable from the texts the theorems speak about.
+   missing), and D92 (a high surrogate is joined with the next escape only if the
+   next two units are a backslash and u / U; otherwise UnEscape returns 0 -- before,
+   the two units were skipped unread).  None of these failure branches is reachable
+   from the texts the theorems speak about.
 
    Conventions: code units and machine integers are N; SizeT32 arithmetic that can
    wrap is written [u32]; Char_T(x) is [cast w x] with w = sizeof(Char_T) in {1,2,4};
@@ -129,15 +132,25 @@ Definition recombine (code low : N) : N :=
    units consumed after the 'u' *)
 Inductive ubr := UBFail | UBOk (emit rest : list N) (adv : N).
 
+(* (content[offset] == BSlashChar) && ((content[offset + 1] == U_Char) || (content[offset + 1] == CU_Char)):
+   the low half has to follow as another \u escape (D92) *)
+Definition low_escape_follows (J : jnot) (r3 : list N) : bool :=
+  match r3 with
+  | a :: b :: _ => (a =? jbs J) && ((b =? ju J) || (b =? jcu J))
+  | _ => false
+  end.
+
 Definition u_branch (w : N) (r2 : list N) : ubr :=
+  let J := jnot_of w in
   if Nat.ltb 3 (length r2) then                         (* (length - offset) > 3 *)
     let code := hex_string_to_number r2 4 in
     let r3 := skipn 4 r2 in
     if negb (is_high_surrogate code) then UBOk (to_utf w code) r3 4
-    else if Nat.ltb 5 (length r3) then                  (* (length - offset) > 5 *)
-      let r4 := skipn 2 r3 in                          (* offset += 2: two units skipped unread *)
+    else if Nat.ltb 5 (length r3) && low_escape_follows J r3 then   (* (length - offset) > 5 && \u follows *)
+      let r4 := skipn 2 r3 in                          (* offset += 2: the backslash and the u *)
+      (* the VALUE of the low half is not checked: low & 0x3FF (pinned by the repository's tests) *)
       UBOk (to_utf w (recombine code (hex_string_to_number r4 4))) (skipn 4 r4) 10
-    else UBFail
+    else UBFail                                        (* lone high surrogate: return 0 *)
   else UBFail.
 
 (* outcome of UnEscape: return value (0 = failure) and the stream's content;
